@@ -209,7 +209,8 @@ impl Grp {
                            "t": self.t, "in": enc(a, self.n, wrapped),
                            "in2": match b { Some(b) => enc(b, self.n, wrapped), None => json!([]) },
                            "args": Value::Array(args.iter().map(|x| x.ex()).collect()),
-                           "lo": self.lo, "hi": self.hi, "pos": pos});
+                           "pos": pos});
+        if form == "val" { e["lo"] = self.lo.clone(); e["hi"] = self.hi.clone(); }
         match out {
             Ok(cs) => {
                 e["out"] = Value::Array(cs.iter().map(|c| enc(c, self.n, wrapped)).collect());
@@ -508,6 +509,7 @@ struct Plan {
     light_cols: usize,     // colours swept by the fixed-amount methods (all of them for the relative ones)
     arith_cols: usize,     // colours per arithmetic / hue / scheme operator
     random: usize,         // seeded random dyadic colours per operator (with random increasing factors)
+    split: bool,           // quick tier: the lattice colours are dealt alternately to f32 and f64 instead of both running all
 }
 
 type Ranges = BTreeMap<String, Vec<Option<(f64, f64)>>>;
@@ -583,9 +585,12 @@ fn drive<T: Flt>(cx: &mut Cx, node: &NodeOps<T>, op: &Op<T>, rg: &[Option<(f64, 
         b[3] = T::of(ALPHAS[(i + j + 1) % ALPHAS.len()]);
         b
     };
+    let parity = if T::NAME == "f32" { 0 } else { 1 };
+    let mine = |i: &usize| -> bool { !plan.split || (*i + node.n) % 2 == parity };
     let thin = |want: usize| -> Vec<usize> {
-        // `want` indices spread over the lattice (all of them if want >= len)
-        if want >= len { (0..len).collect() } else { (0..want).map(|q| (q * len / want + q) % len).collect() }
+        // `want` indices spread over the lattice (all of them if want >= len), this component type's share of them
+        let all: Vec<usize> = if want >= len { (0..len).collect() } else { (0..want).map(|q| (q * len / want + q) % len).collect() };
+        all.into_iter().filter(|i| mine(i)).collect()
     };
     let mut case = |cx: &mut Cx, i: usize, a: V<T>, b: V<T>, f: T| {
         *counter += 1;
@@ -601,7 +606,7 @@ fn drive<T: Flt>(cx: &mut Cx, node: &NodeOps<T>, op: &Op<T>, rg: &[Option<(f64, 
             }
         }
         Kind::Mix => {
-            for i in 0..len {
+            for i in thin(len) {
                 for j in 0..plan.partners {
                     reset(cx);
                     let b = partner(i, j);
@@ -617,7 +622,7 @@ fn drive<T: Flt>(cx: &mut Cx, node: &NodeOps<T>, op: &Op<T>, rg: &[Option<(f64, 
         }
         Kind::Unary => {
             reset(cx);
-            let idx: Vec<usize> = if op.fam == "Clamp" { (0..len).collect() } else { thin(plan.arith_cols.max(9)) };
+            let idx: Vec<usize> = if op.fam == "Clamp" { thin(len) } else { thin(plan.arith_cols.max(9)) };
             for i in idx { case(cx, i, cols[i], cols[i], T::of(0.0)); }
             if op.fam == "Clamp" {
                 // colours outside the range, every component on either side
@@ -667,9 +672,9 @@ fn drive<T: Flt>(cx: &mut Cx, node: &NodeOps<T>, op: &Op<T>, rg: &[Option<(f64, 
 
 fn plan_for(tier: &str) -> Plan {
     if tier == "thorough" {
-        Plan { eighths: vec![0, 1, 4, 7, 8], hues: vec![-90.0, 45.5, 135.0, 270.0, 405.0], partners: 3, light_cols: 125, arith_cols: 125, random: 400 }
+        Plan { eighths: vec![0, 1, 4, 7, 8], hues: vec![-90.0, 45.5, 135.0, 270.0, 405.0], partners: 3, light_cols: 125, arith_cols: 45, random: 80, split: false }
     } else {
-        Plan { eighths: vec![0, 3, 8], hues: vec![-90.0, 135.0, 405.0], partners: 1, light_cols: 9, arith_cols: 9, random: 0 }
+        Plan { eighths: vec![0, 3, 8], hues: vec![-90.0, 135.0, 405.0], partners: 1, light_cols: 9, arith_cols: 9, random: 0, split: true }
     }
 }
 
